@@ -64,7 +64,7 @@ func init() {
 		Rules: []RuleDef{
 			{ID: "R1", Desc: "index comparator is a lexicographic strict order on (index key, primary key) (comparator lint)", Run: c02R1},
 			{ID: "R2", Desc: "result append governed exactly by the per-item verdict (SSA control dependence)", Run: c02R2},
-			{ID: "R3", Desc: "filter conjoined with key condition; Scan seeds from the Scan flag (SSA)", Run: c02R3},
+			{ID: "R3", Desc: "filter conjoined with key condition; Scan seeds from the Scan flag: decision table of the per-item verdict over presence × verdict of the expression kinds (= C05.R9)", Run: aliasRule("R3", c05R9, nil)},
 			{ID: "R4", Desc: "Count and Items derive from the same SearchData result (T-FLOW)", Run: c02R4},
 			{ID: "R5", Desc: "QueryInput plumbing in the four client sites (T-FLOW)", Run: c02R5},
 			{ID: "R6", Desc: "index entry list rebuilt once before the loop, same direction flag (T-DOM)", Run: c02R6},
@@ -94,7 +94,6 @@ func init() {
 			}, nil)},
 			{ID: "R12", Desc: "a search reads no state beyond the confirmed fields of table and index (= C01.R12 + C03.R10)", Run: func(e *Engine) { stateModelClosed(e, "R12", func(k string) bool { return k == "core.index" || k == "core.Table" }) }},
 			{ID: "R13", Desc: "begins_with in a key condition or filter selects exactly the items whose value has the prefix, the value equal to the prefix included (= C06.R13)", Run: aliasRule("R13", c06R13, nil)},
-			{ID: "R14", Desc: "the per-item verdict of a search is Scan / key condition AND filter, as a decision table (= C05.R9)", Run: aliasRule("R14", c05R9, nil)},
 		},
 	})
 }
@@ -150,6 +149,10 @@ func refProjection(v ssa.Value) (p *ssa.Parameter, k int64, onField, ok bool) {
 				return q, idxConst, true, true
 			}
 			if lp, isLP := strip(y.X).(*ssa.Parameter); isLP && isEntryList(lp.Type()) {
+				return q, idxConst, false, true
+			}
+			if f, _ := loadedFieldDeep(y.X); f != nil && isEntryList(f.Type()) {
+				// the list field of a sort record (type refOrder struct{ pairs [][2]string; forward bool })
 				return q, idxConst, false, true
 			}
 			return nil, 0, false, false
@@ -254,6 +257,18 @@ func (le *lessEval) run(fn *ssa.Function, em map[*ssa.Parameter]int, o1, o0 int,
 				le.usesFlag = true
 				return fwd, true
 			}
+		case *ssa.Field:
+			if isBoolType(x.Type()) {
+				le.usesFlag = true
+				return fwd, true
+			}
+		}
+		// a bool field of the sort record loaded through its spilled receiver
+		if u, ok := v.(*ssa.UnOp); ok && u.Op == token.MUL && isBoolType(u.Type()) {
+			if _, isFA := u.X.(*ssa.FieldAddr); isFA {
+				le.usesFlag = true
+				return fwd, true
+			}
 		}
 		return false, false
 	})
@@ -279,8 +294,21 @@ func (e *Engine) sortSites(fn *ssa.Function) []sortAlternative {
 	var out []sortAlternative
 	isList := func(v ssa.Value) bool {
 		v = strip(v)
-		f, _ := loadedField(v)
-		return f != nil && f.Name() == "sortedRefs"
+		if f, _ := loadedField(v); f != nil && f.Name() == "sortedRefs" {
+			return true
+		}
+		// a local list that is stored into the field in the same function (built first, published after sorting)
+		becomes := false
+		instrs(fn, func(in ssa.Instruction) {
+			st, ok := in.(*ssa.Store)
+			if !ok {
+				return
+			}
+			if f := fieldOf(st.Addr); f != nil && f.Name() == "sortedRefs" && strip(st.Val) == v {
+				becomes = true
+			}
+		})
+		return becomes
 	}
 	flagOf := func(facts []Cond) *bool {
 		for _, cd := range facts {
@@ -323,7 +351,38 @@ func (e *Engine) sortSites(fn *ssa.Function) []sortAlternative {
 				return
 			}
 			l := less
-			out = append(out, sortAlternative{less: l, reversed: reversed, fwd: flagOf(facts), onList: isList(x.X), at: at,
+			onList := isList(x.X)
+			if _, isStruct := x.X.Type().Underlying().(*types.Struct); isStruct {
+				// a sort record: its list field must hold the entry list, its bool field (if any) the scan direction itself
+				onList = false
+				if u, ok := x.X.(*ssa.UnOp); ok {
+					if al, isAl := u.X.(*ssa.Alloc); isAl {
+						okFlag := true
+						for _, r := range refsOf(al) {
+							fa, isFA := r.(*ssa.FieldAddr)
+							if !isFA {
+								continue
+							}
+							for _, st := range storesTo(fa) {
+								switch {
+								case isEntryList(st.Val.Type()):
+									if isList(st.Val) {
+										onList = true
+									}
+								case isBoolType(st.Val.Type()):
+									if _, isP := strip(st.Val).(*ssa.Parameter); !isP {
+										okFlag = false
+									}
+								}
+							}
+						}
+						if !okFlag {
+							onList = false
+						}
+					}
+				}
+			}
+			out = append(out, sortAlternative{less: l, reversed: reversed, fwd: flagOf(facts), onList: onList, at: at,
 				em: func(rev bool) map[*ssa.Parameter]int {
 					if rev {
 						return map[*ssa.Parameter]int{l.Params[1]: 1, l.Params[2]: 0}
